@@ -73,6 +73,8 @@ def run_paths(fn, max_paths=8):
             PATH = Path(pending.pop(), pending)
             n += 1
             fn(PATH)
+        if pending:
+            raise Undecided(f"more than {max_paths} execution paths")
     finally:
         PATH = None
     return n
@@ -267,11 +269,15 @@ def sign_of(e):
 _RND = random.Random(12345)
 
 
-def _sample_point(syms, rnd):
-    """generic rational point (wide range so that accidental singularities -- e.g. a singular 2x2 block -- are improbable)"""
+def _sample_point(syms, rnd, multiscale=False):
+    """generic rational point (wide range so that accidental singularities -- e.g. a singular 2x2 block -- are improbable);
+    multiscale: some symbols are drawn many orders of magnitude smaller, so that path constraints of the form |x| <= tolerance
+    (value-dependent fast paths) can be met by a sample"""
     pt = {}
     for s in syms:
         num, den = rnd.randint(1, 97), rnd.choice((1, 2, 3, 5, 7, 11, 13))
+        if multiscale and rnd.random() < 0.4:
+            den *= 10 ** rnd.choice((9, 11, 13))
         if s.is_positive:
             pt[s] = sp.Rational(num, den)
         elif s.is_negative:
@@ -334,7 +340,7 @@ def numeric_zero(e, tries=6, rnd=None):
     limit = 4 * tries if not cons else 400
     while ok + len(nonzero) < tries and attempts < limit:
         attempts += 1
-        pt = _sample_point(syms, rnd)
+        pt = _sample_point(syms, rnd, multiscale=bool(cons) and attempts % 2 == 0)
         if cons:
             try:
                 if not all((sp.N(c.subs(pt), 30) > 0) == (sg > 0) for c, sg in cons):
@@ -680,13 +686,43 @@ SHIM_TABLE = {
 }
 
 
+class _NPProxy:
+    """numpy itself, except for the three predicates that have no object-dtype loop: on exact symbolic arrays every entry is
+    finite, and isclose / allclose are the documented formula |a - b| <= atol + rtol |b| decided entrywise (forking on symbols)"""
+
+    def __getattr__(self, name):
+        return getattr(np, name)
+
+    @staticmethod
+    def _obj(x):
+        return isinstance(x, np.ndarray) and x.dtype == object or isinstance(x, SE)
+
+    def isfinite(self, x, *a, **k):
+        if self._obj(x):
+            return np.ones(np.shape(x), dtype=bool) if np.ndim(x) else True
+        return np.isfinite(x, *a, **k)
+
+    def isclose(self, a, b, rtol=1e-05, atol=1e-08, equal_nan=False):
+        if not (self._obj(a) or self._obj(b)):
+            return np.isclose(a, b, rtol=rtol, atol=atol, equal_nan=equal_nan)
+        A, B = np.broadcast_arrays(np.asarray(a, dtype=object), np.asarray(b, dtype=object))
+        out = np.empty(A.shape, dtype=bool)
+        for idx in np.ndindex(A.shape):
+            x, y = SE(_e(A[idx])), SE(_e(B[idx]))
+            out[idx] = bool(abs(x - y) <= atol + rtol * abs(y))
+        return out if out.ndim else bool(out)
+
+    def allclose(self, a, b, rtol=1e-05, atol=1e-08, equal_nan=False):
+        return bool(np.all(self.isclose(a, b, rtol=rtol, atol=atol, equal_nan=equal_nan)))
+
+
 @contextlib.contextmanager
 def shimmed(*modules):
     saved = []
     nla = _NS(cholesky=shim_cholesky, eigh=shim_eigh, LinAlgError=LinAlgError)
     sla = _NS(solve_triangular=shim_solve_triangular, lu_factor=shim_lu_factor, lu_solve=shim_lu_solve, sqrtm=shim_sqrtm, block_diag=shim_block_diag)
     for m in modules:
-        for name, val in (("nla", nla), ("sla", sla)):
+        for name, val in (("nla", nla), ("sla", sla), ("np", _NPProxy())):
             if hasattr(m, name):
                 saved.append((m, name, getattr(m, name)))
                 setattr(m, name, val)
